@@ -287,6 +287,12 @@ def run_case(spec):
                             if w.merge.setdefault(mk, pl) != pl:
                                 fails.append(('convolve_spec', 'two groups with the same member positions got different centroids'))
                             # mean position / merged properties (not part of the property's text; reported as model tie only)
+                            want_props = {}
+                            for mobj, o in zip(before, cur_obs):
+                                if (o[1], o[2]) == key:
+                                    want_props.update(mobj._properties)
+                            if x._properties != want_props:
+                                fails.append(('convolve_spec', f'created ping has properties {x._properties}, merged group properties are {want_props}'))
                             lons = [w.coords[p].longitude for p in mk]
                             lats = [w.coords[p].latitude for p in mk]
                             c = x.centroid
